@@ -846,6 +846,16 @@ def c11_cases(rng, tier):
         c = case([op(s_)], stack=[1, 1, 2, 0], mem=[0] * 12, sols=RICH_SOLS, entries=ents, index=1)
         cases.append(c)
         oracles.append(as_oracle(c, "o_state"))
+    # one Vm value used for two executions, the second one for the other solution of the set: each read asks for the contract
+    # of the solution given to that execution (nothing learnt about "this contract" in the first run may carry over)
+    for s1 in ("KRNG", "PKRNG", "KREX", "PKREX"):
+        for s2 in ("KRNG", "PKRNG"):
+            for i1, i2 in ((0, 1), (1, 0), (0, 0)):
+                for key, n in (([1], 2), ([1, 2], 3), ([0], 1)):
+                    p1 = args(s1, key, n, 0) + [op(s1)]
+                    p2 = args(s2, key, n, 20) + [op(s2)]
+                    c = case(p1, stack=[33], mem=[-5] * 44, sols=RICH_SOLS, entries=ents, index=i1)
+                    cases.append(f"reuse {i2} {hx(prog_bytes(p2))} " + c)
     return cases, oracles
 
 
@@ -990,4 +1000,12 @@ def c12_cases(rng, tier):
         cases.append(case([op("VRFYED")], stack=st, sols=sols))
         cases.append(case([op("RSECP")], stack=st, sols=sols))
     oracles = [as_oracle(c, "o_access") for c in cases]
+    # one Vm value used for two executions of the same set, the second one for another solution: addresses, data and
+    # slot counts are those of the solution given to each execution
+    for s1 in ("THIS", "THISC", "DSLT", "PEXQ"):
+        for s2 in ("THIS", "THISC", "DSLT"):
+            for i1, i2 in ((0, 1), (1, 2), (2, 0), (1, 1)):
+                p1 = ([P(w) for w in struct_words(hashlib.sha256(pre(sols[0])).digest())] + [op("PEX")]) if s1 == "PEXQ" else [op(s1)]
+                c = case(p1, stack=[5], sols=sols, index=i1)
+                cases.append(f"reuse {i2} {hx(prog_bytes([op(s2), P(0), P(0), P(1), op('DATA')] if i2 != 2 else [op(s2)]))} " + c)
     return cases, oracles
